@@ -39,10 +39,14 @@ type c04Op struct {
 	// timedcancel: A's context is cancelled CancelUS microseconds after it was issued,
 	// without parking (reaches the windows between two pool-internal steps)
 	CancelUS int `json:"cancel_us,omitempty"`
+	// FailPut (req, kind add): the record write of this ADD fails (database write error)
+	FailPut bool `json:"fail_put,omitempty"`
 }
 
 type c04Scenario struct {
 	Cfg vsPoolCfg `json:"cfg"`
+	// ErdmaMask: pods (bit i = pod i) that ask for an ERDMA address (only with Cfg.Erdma > 0)
+	ErdmaMask int `json:"erdma_mask,omitempty"`
 	Ops []c04Op   `json:"ops"`
 }
 
@@ -81,10 +85,18 @@ func c04Gen(t *rapid.T) c04Scenario {
 	if s.Cfg.V6 && rapid.Bool().Draw(t, "v6only") {
 		s.Cfg.NoV4 = true
 	}
+	if !s.Cfg.Trunk && rapid.IntRange(0, 3).Draw(t, "erdma") == 0 {
+		// enable_erdma (the daemon switches it off on a trunk node)
+		s.Cfg.Erdma = 1
+		s.ErdmaMask = rapid.IntRange(1, 1<<c04Pods-1).Draw(t, "erdmapods")
+	}
 	n := rapid.IntRange(1, vt.Scale(15, 40)).Draw(t, "nops")
 	for i := 0; i < n; i++ {
 		o := c04Op{Kind: rapid.SampledFrom([]string{"req", "req", "req", "req", "overlap", "overlap", "cancel", "cancel", "timedcancel", "timedcancel", "recreate", "race"}).Draw(t, "opkind")}
 		o.A = c04GenReq(t, "a")
+		if o.Kind == "req" && o.A.Kind == "add" && rapid.IntRange(0, 7).Draw(t, "failput") == 0 {
+			o.FailPut = true
+		}
 		switch o.Kind {
 		case "overlap":
 			b := c04GenReq(t, "b")
@@ -365,6 +377,10 @@ func (x *c04World) judge(r c04Req, cid string, res c04Result, viewBefore string,
 		}
 		if m.cur != nil {
 			x.labels["failed-repeat-add"] = true
+			if !cancelled && cid == m.cur.cid && !m.cur.uncertain && !m.tainted {
+				// nothing was in flight, nothing was cancelled and nothing was made to fail
+				c.Fatalf("repeating the completed ADD of %s (sandbox %s, holds %s/%s) failed: %v", name, cid, m.cur.v4, m.cur.v6, res.err)
+			}
 			if !x.noGuard && vt.Known("C04-cancelled-repeat-add-releases-held") {
 				m.cur.uncertain = true
 				m.tainted = true
@@ -542,7 +558,10 @@ func c04RunOpt(c *vt.Ctx, s c04Scenario, noGuard bool) {
 	x := &c04World{c: c, w: w, gate: &c04Gate{}, labels: map[string]bool{}, noGuard: noGuard}
 	for i := range x.pods {
 		x.pods[i] = &c04PodModel{}
-		k.setPod(c04PodName(i), fmt.Sprintf("uid-%d-0", i), false)
+		k.setPodOpt(c04PodName(i), fmt.Sprintf("uid-%d-0", i), false, s.Cfg.Erdma > 0 && s.ErdmaMask&(1<<i) != 0)
+	}
+	if s.Cfg.Erdma > 0 {
+		x.labels["erdma-pods"] = true
 	}
 	k.gate = func(key string) { x.gate.point("k8s:" + key) }
 	cloud.Gate = func(call *cloudsim.Call) {
@@ -565,15 +584,23 @@ func c04RunOpt(c *vt.Ctx, s c04Scenario, noGuard bool) {
 		case "recreate":
 			m := x.pods[o.A.Pod]
 			m.uidSeq++
-			k.setPod(c04PodName(o.A.Pod), fmt.Sprintf("uid-%d-%d", o.A.Pod, m.uidSeq), false)
+			k.setPodOpt(c04PodName(o.A.Pod), fmt.Sprintf("uid-%d-%d", o.A.Pod, m.uidSeq), false, s.Cfg.Erdma > 0 && s.ErdmaMask&(1<<o.A.Pod) != 0)
 			x.labels["recreate"] = true
 		case "req":
 			cid := x.cidFor(o.A)
 			before := x.podView(o.A.Pod)
+			if o.FailPut {
+				// "an ADD that fails hands back every address it took": here it fails at its very
+				// last step, the record write (outside the statement's quantifier, which is about
+				// request interleavings and cancellation; explored as extra coverage)
+				x.w.store.failPut = vsKey("ns", c04PodName(o.A.Pod))
+				x.labels["record-write-fails"] = true
+			}
 			ctx, cancel := context.WithTimeout(context.Background(), c04ReqTimeout)
 			res := x.issue(ctx, o.A, cid)
 			cancel()
-			x.judge(o.A, cid, res, before, false)
+			x.w.store.failPut = ""
+			x.judge(o.A, cid, res, before, res.err != nil && o.FailPut)
 		case "overlap", "cancel":
 			x.stepParked(o)
 		case "race":
